@@ -214,6 +214,9 @@ type Env struct {
 	Tag        string
 }
 
+// LogLevel is the log level of the block relay service (raised by checks that inject delays through a log hook).
+var LogLevel = zerolog.Disabled
+
 var envNo atomic.Int64
 
 // RelayAddr makes the relay addresses of an env unique (the builder-client cache is process wide).
@@ -250,7 +253,7 @@ func NewEnv(accts []harness.Acct, nNodes int, initial Outcome, bidder *Bidder) (
 	if err != nil {
 		return nil, err
 	}
-	e.Svc, err = relaystd.New(ctx, relaystd.WithLogLevel(zerolog.Disabled), relaystd.WithMonitor(nullmetrics.New()), relaystd.WithMajordomo(e.Config), relaystd.WithScheduler(e.Sched),
+	e.Svc, err = relaystd.New(ctx, relaystd.WithLogLevel(LogLevel), relaystd.WithMonitor(nullmetrics.New()), relaystd.WithMajordomo(e.Config), relaystd.WithScheduler(e.Sched),
 		relaystd.WithListenAddress("127.0.0.1:0"), relaystd.WithChainTime(e.Clock), relaystd.WithConfigURL("file:///config.json"), relaystd.WithFallbackFeeRecipient(e.FallbackFR),
 		relaystd.WithFallbackGasLimit(e.FallbackGL), relaystd.WithAccountsProvider(e.Accounts), relaystd.WithValidatorsProvider(mock.NewValidatorsProvider()),
 		relaystd.WithValidatingAccountsProvider(e.Accounts), relaystd.WithValidatorRegistrationSigner(sg), relaystd.WithSecondaryValidatorRegistrationsSubmitters(secondaries),
